@@ -192,6 +192,13 @@ def fam_c08(R, n):
             args = rust_str(p) + ('' if pr is None else ', priority = %d' % pr)
             vs.append('#[%s(%s)] V%d,' % ('token' if tok else 'regex', args, j))
         out.append(dict(family='c08', src=enum([], vs), meta=dict(leaves=leaves)))
+    # enumerated: three patterns matching a common string, two tied at the top priority, the third lower, in every
+    # declaration order (the tied ones adjacent, or separated by the lower one)
+    for trip in itertools.permutations(['a', '[a-c]', 'a+', '[a-z]+'], 3):
+        for prs in [(3, 2, 3), (3, 3, 2), (2, 3, 3), (5, 1, 5)]:
+            leaves = [(False, p_, pr_) for p_, pr_ in zip(trip, prs)]
+            vs = ['#[regex(%s, priority = %d)] V%d,' % (rust_str(p_), pr_, j) for j, (_, p_, pr_) in enumerate(leaves)]
+            out.append(dict(family='c08-enum', src=enum([], vs), meta=dict(leaves=leaves)))
     # look-around patterns: two patterns may tie only in some contexts (end of input, before a non-word byte, ...)
     for i in range(max(6, n // 3)):
         k = R.choice([2, 2, 3, 3, 4])
